@@ -61,11 +61,18 @@ GraphOp(m, a, s) ==
     [] m = "clone"       -> PR([s EXCEPT !.gs = <<g, g>> \o Tail(@)], RUnit)
     [] m = "diff"        -> PR(s, IF a[1] < Len(s.gs) THEN RVal(Differ(s.gs[a[1] + 1], g)) ELSE RNone)
     [] m = "eq"          -> PR(s, IF a[1] < Len(s.gs) THEN RVal(GraphEqImpl(s.gs[a[1] + 1], g)) ELSE RNone)
+    \* the texts are judged by JudgeGraph (TextOK / DiffTextOK): only the shape of the answer is fixed here
+    [] m = "to_string"   -> PR(s, RVal(""))
+    [] m = "diff_text"   -> PR(s, IF a[1] >= Len(s.gs) THEN RNone ELSE IF Differ(s.gs[a[1] + 1], g) THEN RVal("") ELSE RUnit)
 JudgeGraph(e, pre) ==
   LET subj == "graph." \o e.act.m IN
   IF Crashed(e) THEN V("crash", subj, "C18", e.post.msg)
   ELSE LET r == GraphOp(e.act.m, e.act.args, pre) IN
-       IF ~(e.post = r.post /\ RetEq(e.ret, r.ret)) THEN V("mismatch", subj, "C18", "graphs or return value differ from the model")
+       IF e.act.m \in {"to_string", "diff_text"} /\ e.post = r.post /\ e.ret.t = r.ret.t /\ r.ret.t = "val"
+       THEN Expect(IF e.act.m = "to_string" THEN TextOK(e.ret.v, pre.gs[1])
+                   ELSE DiffTextOK(e.ret.v, pre.gs[e.act.args[1] + 1], pre.gs[1]),
+                   subj, "C18", "the text does not list exactly the nodes / edges / changes of the model (lines, counts, grouping)")
+       ELSE IF ~(e.post = r.post /\ RetEq(e.ret, r.ret)) THEN V("mismatch", subj, "C18", "graphs or return value differ from the model")
        ELSE Expect(\A i \in 1..Len(e.post.gs) : GraphInv(e.post.gs[i]), subj, "C18", "structural invariant G1/G2 broken")
 
 \* topology functions
